@@ -528,3 +528,49 @@ func isErrNilTest(info *types.Info, e ast.Expr) bool {
 	isNil := func(x ast.Expr) bool { id, ok := ast.Unparen(x).(*ast.Ident); return ok && id.Name == "nil" }
 	return (isErr(be.X) && isNil(be.Y)) || (isErr(be.Y) && isNil(be.X))
 }
+
+// ruleBranchConsultsOnly: wherever a branch of the given packages decides on `anchor` (a
+// qualified struct field), it decides on nothing else than the allowed fields - looked at
+// through predicates and split-off helpers. A second input (a tag, a name) next to the anchor
+// makes the decision differ for some values of it; that is a change of behaviour to review, not
+// a restructuring.
+func ruleBranchConsultsOnly(c *Ctx, r *Report, clause, anchor string, allowedFields []string, floor int, desc string, pkgPrefixes ...string) {
+	w := c.W
+	allowed := map[string]bool{anchor: true}
+	for _, a := range allowedFields {
+		allowed[a] = true
+	}
+	viol := ""
+	var sites []string
+	n := 0
+	for _, fi := range w.funcsOfPkgPrefixes(pkgPrefixes...) {
+		if w.isNewName(fi.Key) || fi.Decl.Body == nil {
+			continue
+		}
+		for _, rf := range w.astRegion(fi) {
+			for _, ce := range branchConds(rf) {
+				var a *Atoms
+				w.withHost(fi.Key, func() { a = w.exprAtomsDeep(rf, ce) })
+				if !a.Fields[anchor] {
+					continue
+				}
+				n++
+				sites = append(sites, w.pos(ce.Pos()))
+				for f := range a.Fields {
+					if !allowed[f] {
+						viol = fmt.Sprintf("%s: a branch of %s that decides on %s now also consults %s: %s", w.pos(ce.Pos()), fi.Key, anchor, f, desc)
+					}
+				}
+				for cl := range a.Calls {
+					if nm := strings.TrimLeft(strings.TrimPrefix(strings.TrimPrefix(cl, "inlined:"), "func:"), "(*"); isGleeceCallee(nm) && !strings.HasPrefix(nm, "infrastructure/logger") {
+						viol = fmt.Sprintf("%s: a branch of %s that decides on %s now also consults %s: %s", w.pos(ce.Pos()), fi.Key, anchor, cl, desc)
+					}
+				}
+			}
+		}
+	}
+	if n < floor {
+		viol = fmt.Sprintf("only %d branches deciding on %s found (floor %d)", n, anchor, floor)
+	}
+	r.add(clause, "decision-inputs", "consults-only:"+anchor, desc, pkgPrefixes, sites, viol)
+}
